@@ -26,9 +26,9 @@ struct Osc { int shape; float detune; bool sync; static const rtosc::Ports ports
 struct Fx { int kind; float mix; int taps[3]; static const rtosc::Ports ports; Fx() : kind(1), mix(0.25f) { taps[0] = 1; taps[1] = 2; taps[2] = 3; } };
 struct Flat {
     int i_pos, i_neg, i_wide; float f1, f_neg; bool t_off, t_on; int opt; char name[24]; char tag[6];
-    int arr[4]; float farr[3]; bool tarr[3]; bool tmix[4]; bool tmix2[3]; char pc; int slot_level[3]; char text[120]; int big[12]; float fbig[8]; int oarr[3]; int kw;
+    int arr[4]; float farr[3]; bool tarr[3]; bool tmix[4]; bool tmix2[3]; char pc; int slot_level[3]; char text[120]; int big[12]; float fbig[8]; int oarr2[3]; int osc1; int kw2; int oarr[3]; int kw;
     Flat() : i_pos(10), i_neg(-5), i_wide(0), f1(0.5f), f_neg(-1.25f), t_off(false), t_on(true), opt(1), pc('@') {
-        strcpy(name, "init"); strcpy(tag, ""); int a[4] = {1, 2, 3, 4}; memcpy(arr, a, sizeof a); farr[0] = farr[1] = farr[2] = 0; tarr[0] = tarr[1] = tarr[2] = false; tmix[0] = true; tmix[1] = tmix[2] = tmix[3] = false; tmix2[0] = false; tmix2[1] = tmix2[2] = true; slot_level[0] = slot_level[1] = slot_level[2] = 0; strcpy(text, ""); for (int q = 0; q < 12; q++) big[q] = 0; for (int q = 0; q < 8; q++) fbig[q] = 1.0f; oarr[0] = oarr[1] = oarr[2] = 0; kw = 0; }
+        strcpy(name, "init"); strcpy(tag, ""); oarr2[0] = oarr2[1] = oarr2[2] = 0; osc1 = 0; kw2 = 0; int a[4] = {1, 2, 3, 4}; memcpy(arr, a, sizeof a); farr[0] = farr[1] = farr[2] = 0; tarr[0] = tarr[1] = tarr[2] = false; tmix[0] = true; tmix[1] = tmix[2] = tmix[3] = false; tmix2[0] = false; tmix2[1] = tmix2[2] = true; slot_level[0] = slot_level[1] = slot_level[2] = 0; strcpy(text, ""); for (int q = 0; q < 12; q++) big[q] = 0; for (int q = 0; q < 8; q++) fbig[q] = 1.0f; oarr[0] = oarr[1] = oarr[2] = 0; kw = 0; }
     static const rtosc::Ports ports;
 };
 // ------------------------------------------------------------------ application 2: presets, enabled-by, sub-trees
@@ -39,9 +39,10 @@ struct Synth {
     Osc voices[12]; bool Pvoices;              // rRecurs (two-digit indices)
     bool Pfx; Fx *fx;                          // rRecurp: the object exists only while Pfx is true
     int mode; int depth;                       // depth declares rDepends(mode)
+    int preset0, preset1, preset2;             // ports named like the selector followed by one of its values
     bool osc2_on; Osc *osc2;                   // toggle named like its sub-tree, default depends on the preset, object exists only while on
     bool Pbank; Bank *bank;                    // rRecurp over rRecurs: "/bank/slots1/kind" depends on "/Pbank" two levels up
-    Synth() : preset(0), gain(30), cutoff(0.5f), Poscenabled(false), Pvoices(true), Pfx(false), fx(nullptr), mode(0), depth(7), osc2_on(false), osc2(nullptr), Pbank(false), bank(nullptr) { apply_preset(); }
+    Synth() : preset(0), gain(30), cutoff(0.5f), Poscenabled(false), Pvoices(true), Pfx(false), fx(nullptr), mode(0), depth(7), preset0(4), preset1(5), preset2(6), osc2_on(false), osc2(nullptr), Pbank(false), bank(nullptr) { apply_preset(); }
     ~Synth() { delete fx; delete bank; delete osc2; }
     void set_osc2(bool on) { if (on && !osc2) osc2 = new Osc; if (!on && osc2) { delete osc2; osc2 = nullptr; } osc2_on = on; }
     Synth(const Synth &) = delete;
@@ -113,6 +114,9 @@ inline const rtosc::Ports Flat::ports = {
     rArrayI(big, 12, rLinear(-1000, 1000), rDefault([12x0]), "long int array (runs and arithmetic sequences are printed as ranges)"),
     rArrayF(fbig, 8, rLinear(-4, 4), rDefault([8x1.0]), "long float array"),
     rArrayOption(oarr, 3, rOptions(lo, mid, hi), rLinear(0, 2), rDefault([lo lo lo]), "option array"),
+    rArrayOption(oarr2, 3, rOptionsBound(lp, hp, bp), rDefault([lp lp lp]), "option array whose declared range (0..3) has one value without a symbol"),
+    rOption(osc1, rOptionsBound(lp, hp, bp), rDefault(lp), "scalar option with the same range"),
+    rOption(kw2, rOptions(later, now, immediately, inf, nil, MIDI, BLOB, true, false), rLinear(0, 8), rDefault(later), "option whose symbols are words of the text format"),
     {"slot#3/level::i", rProp(parameter) rMap(min, 0) rMap(max, 100) rDefault([3x0]) rDoc("enumeration in the middle of a leaf name"), NULL,
         [](const char *m, rtosc::RtData &d) { Flat *o = (Flat *)d.obj; const char *mm = m; while (*mm && !isdigit(*mm)) ++mm; unsigned idx = atoi(mm); if (idx >= 3) return;
             if (*rtosc_argument_string(m)) { int v = rtosc_argument(m, 0).i; o->slot_level[idx] = v < 0 ? 0 : v > 100 ? 100 : v; d.broadcast(d.loc, "i", o->slot_level[idx]); } else d.reply(d.loc, "i", o->slot_level[idx]); }},
@@ -135,6 +139,9 @@ inline const rtosc::Ports Synth::ports = {
     {"mode::i", rProp(parameter) rMap(min, 0) rMap(max, 3) rDefault(0) rDoc("mode: changing it resets depth"), NULL,
         [](const char *m, rtosc::RtData &d) { Synth *o = (Synth *)d.obj; if (*rtosc_argument_string(m)) { int v = rtosc_argument(m, 0).i; if (v < 0) v = 0; if (v > 3) v = 3; if (v != o->mode) { o->mode = v; o->depth = 7; } d.broadcast(d.loc, "i", o->mode); } else d.reply(d.loc, "i", o->mode); }},
     rParamI(depth, rLinear(0, 20), rDepends(mode), rDefault(7), "depth (reset by mode)"),
+    rParamI(preset0, rLinear(0, 9), rDefault(4), "named like the selector followed by its value 0"),
+    rParamI(preset1, rLinear(0, 9), rDefault(5), "named like the selector followed by its value 1"),
+    rParamI(preset2, rLinear(0, 9), rDefault(6), "named like the selector followed by its value 2"),
     {"osc2_on::T:F", rProp(parameter) rDefaultDepends(preset) rPreset(0, false) rPreset(1, true) rPreset(2, false) rDoc("second oscillator switch: preset dependent default; creates / destroys the object"), NULL,
         [](const char *m, rtosc::RtData &d) { Synth *o = (Synth *)d.obj; const char *a = rtosc_argument_string(m); if (*a) { o->set_osc2(*a == 'T'); d.broadcast(d.loc, o->osc2_on ? "T" : "F"); } else d.reply(d.loc, o->osc2_on ? "T" : "F"); }},
     rRecurp(osc2, rEnabledBy(osc2_on), "second oscillator, exists only while osc2_on"),
@@ -243,6 +250,9 @@ inline const std::vector<Param> &flat_params() {
     for (int q = 0; q < 3; q++) P.push_back({"/slot" + std::to_string(q) + "/level", 1, 'i', [q](void *o, int) { return vi(F(o)->slot_level[q]); }, [](void *, int) { return vi(0); }, yes, 0, 100, 0, {}});
     P.push_back({"/tmix", 4, 'T', [](void *o, int k) { return vb(F(o)->tmix[k]); }, [](void *, int k) { return vb(k == 0); }, yes, 0, 1, 0, {}});
     P.push_back({"/tmix2", 3, 'T', [](void *o, int k) { return vb(F(o)->tmix2[k]); }, [](void *, int k) { return vb(k != 0); }, yes, 0, 1, 0, {}});
+    P.push_back({"/oarr2", 3, 'o', [](void *o, int k) { return vi(F(o)->oarr2[k]); }, [](void *, int) { return vi(0); }, yes, 0, 3, 0, {"lp", "hp", "bp"}});
+    P.push_back({"/osc1", 1, 'o', [](void *o, int) { return vi(F(o)->osc1); }, [](void *, int) { return vi(0); }, yes, 0, 3, 0, {"lp", "hp", "bp"}});
+    P.push_back({"/kw2", 1, 'o', [](void *o, int) { return vi(F(o)->kw2); }, [](void *, int) { return vi(0); }, yes, 0, 8, 0, {"later", "now", "immediately", "inf", "nil", "MIDI", "BLOB", "true", "false"}});
 #undef F
     return P;
 }
@@ -273,6 +283,9 @@ inline const std::vector<Param> &synth_params() {
         P.push_back({pre + "taps", 3, 'i', [q](void *o, int k) { return vi(S(o)->bank ? S(o)->bank->slots[q].taps[k] : k + 1); }, [](void *, int k) { return vi(k + 1); }, br, 0, 100, 0, {}}); } }
     P.push_back({"/mode", 1, 'i', [](void *o, int) { return vi(S(o)->mode); }, [](void *, int) { return vi(0); }, yes, 0, 3, 0, {}});
     P.push_back({"/depth", 1, 'i', [](void *o, int) { return vi(S(o)->depth); }, [](void *, int) { return vi(7); }, yes, 0, 20, 0, {}});
+    P.push_back({"/preset0", 1, 'i', [](void *o, int) { return vi(S(o)->preset0); }, [](void *, int) { return vi(4); }, yes, 0, 9, 0, {}});
+    P.push_back({"/preset1", 1, 'i', [](void *o, int) { return vi(S(o)->preset1); }, [](void *, int) { return vi(5); }, yes, 0, 9, 0, {}});
+    P.push_back({"/preset2", 1, 'i', [](void *o, int) { return vi(S(o)->preset2); }, [](void *, int) { return vi(6); }, yes, 0, 9, 0, {}});
 #undef S
     return P;
 }
